@@ -1294,6 +1294,12 @@ func fixedCases() []corr.Case {
 		mk("bulk", "new syncq", "addn 4200 1000", "len", "drain", "len", "add 7", "pop", "pop", "add 8", "trypop", "addn 20 9000", "drain"),
 		mk("bulk", "new syncq", "addn 20 1", "drain", "addn 5000 100", "pop", "drain", "pop", "add 1", "pop", "close", "addn 3 7", "drain"),
 		mk("bulk", "new q 0", "addn 300 1", "pop", "popany", "close", "popany"),
+		// 0 (or a negative size) = unbounded: far more than any default size is accepted
+		mk("unbounded", "new q 0", "addn 9000 1", "pop", "add 9999", "close"),
+		mk("unbounded", "new async 0", "size?", "addn 9000 1", "pop"),
+		mk("unbounded", "new async -1", "size?", "addn 9000 1", "popany"),
+		mk("unbounded", "new mux -5", "addn 9000 1", "pop"),
+		mk("unbounded", "new mq 0 -1", "addn 9000 1", "addc 1", "pop", "pop"),
 		// the ring buffer of eapache/queue holds 2^k slots: exactly full, one below, one above, then look at it
 		mk("ring", "new syncq", "addn 15 1", "len", "trypop", "len", "pop", "add 999", "len", "drain", "len", "trypop"),
 		mk("ring", "new syncq", "addn 16 1", "len", "trypop", "len", "pop", "add 999", "len", "drain", "len", "trypop"),
